@@ -151,7 +151,9 @@ func replay(args []string) error {
 		fins = []Fin{{Kind: "update"}, {Kind: "updates"}, {Kind: "updatecol"}, {Kind: "updatecols"}, {Kind: "delete"},
 			{Kind: "update", Allow: "session"}, {Kind: "delete", Allow: "session"}, {Kind: "delete", Unscoped: true},
 			{Kind: "update", Prior: "count", Clone: "session"}, {Kind: "delete", Prior: "noop_updates", Clone: "withctx"},
-			{Kind: "updates", Prior: "find", Clone: "debug"}}
+			{Kind: "updates", Prior: "find", Clone: "debug"},
+			{Kind: "delete", Unscoped: true, Late: true, Prior: "count"}, {Kind: "update", Unscoped: true, Late: true, Prior: "find"},
+			{Kind: "delete", Unscoped: true, Late: true, Prior: "find", Clone: "session"}}
 	}
 	for i := *from; i < *to; i++ {
 		var fc flatCase
@@ -302,6 +304,7 @@ func randEmptyChain(r *rand.Rand) ([]Unit, []Fin) {
 	if fin.Allow != "config" && r.Intn(3) == 0 { // the chain value was used before and derived again
 		fin.Prior = []string{"count", "noop_updates", "find"}[r.Intn(3)]
 		fin.Clone = []string{"session", "withctx", "debug", ""}[r.Intn(4)]
+		fin.Late = fin.Unscoped && r.Intn(2) == 0
 	}
 	return chain, []Fin{fin}
 }
